@@ -216,6 +216,7 @@ func (svc *service) stop() {
 	if !doit {
 		return
 	}
+	defer verifStopDone(svc)
 
 	// Close quit channel, effectively telling all the goroutines it's time to quit
 	if svc.done != nil {
@@ -277,6 +278,7 @@ func (svc *service) publish(msg *message.PublishMessage, onComplete OnCompleteFu
 	if err != nil {
 		return fmt.Errorf("(%s) Error sending %s message: %v", svc.cid(), msg.Name(), err)
 	}
+	vpoint(svc, vpWritten)
 
 	switch msg.QoS() {
 	case message.QosAtMostOnce:
@@ -305,6 +307,7 @@ func (svc *service) subscribe(msg *message.SubscribeMessage, onComplete OnComple
 	if err != nil {
 		return fmt.Errorf("(%s) Error sending %s message: %v", svc.cid(), msg.Name(), err)
 	}
+	vpoint(svc, vpWritten)
 
 	var onc OnCompleteFunc = func(msg, ack message.Message, err error) error {
 		onComplete := onComplete
@@ -381,6 +384,7 @@ func (svc *service) unsubscribe(msg *message.UnsubscribeMessage, onComplete OnCo
 	if err != nil {
 		return fmt.Errorf("(%s) Error sending %s message: %v", svc.cid(), msg.Name(), err)
 	}
+	vpoint(svc, vpWritten)
 
 	var onc OnCompleteFunc = func(msg, ack message.Message, err error) error {
 		onComplete := onComplete
@@ -445,6 +449,7 @@ func (svc *service) ping(onComplete OnCompleteFunc) error {
 	if err != nil {
 		return fmt.Errorf("(%s) Error sending %s message: %v", svc.cid(), msg.Name(), err)
 	}
+	vpoint(svc, vpWritten)
 
 	return svc.sess.Pingack.Wait(msg, onComplete)
 }
